@@ -1,5 +1,6 @@
 import SimilarVerif.Lemmas.Group
 import SimilarVerif.Lemmas.GroupCaptured
+import SimilarVerif.Lemmas.GroupPairs
 /-!
 # C12 — grouping keeps every change once, in order, with exactly `n` items of context
 
@@ -68,6 +69,39 @@ theorem adjacent_changes (ops : List Op) (n : Nat) (pre post : List Op) (c1 c2 :
     ∃ G1 s1 s2 G2, groupDiffOps ops n = G1 ++ [s1 ++ [c1, c2] ++ s2] ++ G2 ∧
       changesOf (G1.flatten ++ s1) = changesOf pre :=
   group_adjacent_changes ops n pre post c1 c2 hops h1 h2
+
+/-- two ARBITRARY changes `c1`, `c2` (any ops `mid` between them) are in the same group, which contains `c1`, the
+whole of `mid` and `c2`, when every Equal op between them has at most `2n` items.  Every op list, every radius. -/
+theorem arbitrary_pair_same_group (ops : List Op) (n : Nat) (pre mid post : List Op) (c1 c2 : Op)
+    (hops : ops = pre ++ [c1] ++ mid ++ [c2] ++ post) (h1 : c1.tag ≠ .equal) (h2 : c2.tag ≠ .equal)
+    (hmid : ∀ x ∈ mid, x.tag = .equal → x.oLen ≤ 2 * n) :
+    ∃ G1 s1 s2 G2, groupDiffOps ops n = G1 ++ [s1 ++ [c1] ++ mid ++ [c2] ++ s2] ++ G2 ∧
+      changesOf (G1.flatten ++ s1) = changesOf pre :=
+  same_group_of_small_gaps ops n pre mid post c1 c2 hops h1 h2 hmid
+
+#print axioms arbitrary_pair_same_group
+
+/-- two ARBITRARY changes `c1`, `c2` are in different groups, `c1`'s group `g1` before `c2`'s group `g2`, when some
+Equal op between them has more than `2n` items; the `changesOf` equations say that these are the given occurrences
+of `c1` and `c2`; `g1` ends with the first `n` items of the first such Equal op.  Every op list, every radius. -/
+theorem arbitrary_pair_different_groups (ops : List Op) (n : Nat) (pre mid post : List Op) (c1 c2 : Op)
+    (hops : ops = pre ++ [c1] ++ mid ++ [c2] ++ post) (h1 : c1.tag ≠ .equal) (h2 : c2.tag ≠ .equal)
+    (hmid : ∃ x ∈ mid, x.tag = .equal ∧ 2 * n < x.oLen) :
+    ∃ G1 g1 Gm g2 G2 s1 t1 s2 t2,
+      groupDiffOps ops n = G1 ++ [g1] ++ Gm ++ [g2] ++ G2 ∧
+      g1 = s1 ++ [c1] ++ t1 ∧ changesOf (G1.flatten ++ s1) = changesOf pre ∧
+      g2 = s2 ++ [c2] ++ t2 ∧
+      changesOf ((G1 ++ [g1] ++ Gm).flatten ++ s2) = changesOf (pre ++ [c1] ++ mid) ∧
+      (∃ m1 o m len m2, mid = m1 ++ .equal o m len :: m2 ∧ 2 * n < len ∧
+        (∀ y ∈ m1, y.tag = .equal → y.oLen ≤ 2 * n) ∧ t1 = m1 ++ [.equal o m n]) :=
+  different_groups_of_big_gap ops n pre mid post c1 c2 hops h1 h2 hmid
+
+#print axioms arbitrary_pair_different_groups
+
+/-- non-vacuity of `arbitrary_pair_different_groups`: three changes, the gap between the first two small, between the
+last two big (`n = 1`): the first and the third change are in different groups -/
+example : groupDiffOps [.delete 0 1 0, .equal 1 0 2, .insert 3 2 1, .equal 3 3 7, .delete 10 1 10] 1 =
+    [[.delete 0 1 0, .equal 1 0 2, .insert 3 2 1, .equal 3 3 1], [.equal 9 9 1, .delete 10 1 10]] := by decide
 
 /-- every group of a valid script is itself a valid script between its own end points (zero-length
 context ops, which `n = 0` produces, aside) -/
